@@ -39,10 +39,25 @@ type Node struct {
 	// compound only
 	Nested   bool  // decoded from its own buffer with FieldFormatBitBuf (a nested root)
 	TrailGap []byte // root only: bytes after the last field that no field reads (-> gap0)
+	isRoot   bool
+	bufBits  int64 // roots and nested roots: size of their buffer
 	start    int64
 }
 
 func (n *Node) compound() bool { return n.Kind == 's' || n.Kind == 'a' }
+
+// hasLeaf: some scalar below (within the same buffer)
+func (n *Node) hasLeaf() bool {
+	for _, k := range n.Kids {
+		if !k.compound() {
+			return true
+		}
+		if !k.Nested && k.hasLeaf() {
+			return true
+		}
+	}
+	return false
+}
 
 // ------------------------------------------------------------------ Go representation of integers
 
@@ -220,6 +235,7 @@ func decodeKids(d *decode.D, n *Node) {
 					k.Kids[j].start = sub.Kids[j].start
 				}
 				w.bits(k.TrailGap, int64(len(k.TrailGap))*8)
+				k.bufBits = w.n
 				g := genStruct
 				if k.Kind == 'a' {
 					g = genArray
@@ -345,7 +361,9 @@ func (n *Node) dvText(sb *strings.Builder) {
 			sort.SliceStable(kids, func(i, j int) bool { return kids[i].start < kids[j].start })
 		}
 		cnt := len(kids)
-		if len(n.TrailGap) > 0 {
+		// FillGaps: a buffer in which no leaf has a non-empty range is one gap, also when the buffer is empty
+		zeroGap := (n.isRoot || n.Nested) && n.bufBits == 0
+		if len(n.TrailGap) > 0 || zeroGap {
 			cnt++
 		}
 		fmt.Fprintf(sb, "%c%d", n.Kind, cnt)
@@ -356,7 +374,7 @@ func (n *Node) dvText(sb *strings.Builder) {
 			sb.WriteByte(' ')
 			k.dvText(sb)
 		}
-		if len(n.TrailGap) > 0 {
+		if len(n.TrailGap) > 0 || zeroGap {
 			if n.Kind == 's' {
 				sb.WriteString(" " + hx([]byte("gap0")))
 			}
